@@ -47,6 +47,28 @@ Proof.
   f_equal. apply IH. tauto.
 Qed.
 
+(* the three ways rename_variable treats one side of the interface *)
+Lemma rename_spec_same (s u : var) l : (~ In s l \/ s = u) -> rename_list_spec s u l l.
+Proof.
+  intros Hc. split; [reflexivity|]. intros Hs Nd. split; [assumption|]. intros x.
+  destruct Hc as [Hc| ->]; [contradiction|]. destruct (string_dec x u); subst; tauto.
+Qed.
+Lemma rename_spec_replace (s u : var) l :
+  In s l -> ~ In u l -> rename_list_spec s u l (replace_first s u l).
+Proof.
+  intros Hs Hu. split; [intros n; contradiction|]. intros _ Nd.
+  split; [apply NoDup_replace_first; assumption|].
+  intros x. apply in_replace_first; assumption.
+Qed.
+Lemma rename_spec_remove (s u : var) l :
+  In s l -> In u l -> s <> u -> rename_list_spec s u l (remove_first s l).
+Proof.
+  intros Hs Hu Hne. split; [intros n; contradiction|]. intros _ Nd.
+  split; [apply NoDup_remove_first; assumption|].
+  intros x. rewrite in_remove_first by assumption. split; [tauto|].
+  intros [?| ->]; [tauto|]. split; [assumption|congruence].
+Qed.
+
 (* ---------- tactics ---------- *)
 (* replace hypothesis H : P by L H : Q *)
 Ltac fwd t H := let H' := fresh in pose proof t as H'; clear H; rename H' into H.
@@ -68,7 +90,7 @@ Ltac b2p :=
   | H : Nat.eqb (len _) 0 = false |- _ => fwd (len0_false_in H) H
   | H : Nat.ltb 0 (len _) = true |- _ => fwd (lenpos_true_in H) H
   | H : Nat.ltb 0 (len _) = false |- _ => fwd (lenpos_false_in H) H
-  | H : lists_equal _ _ = true |- _ => apply lists_equal_iff in H
+  | H : lists_equal _ _ = true |- _ => fwd (proj1 (lists_equal_iff _ _) H) H
   | H : lists_equal _ _ = false |- _ => fwd (lists_equal_false_nd H) H
   | H : py_in _ _ = true |- _ => apply py_in_var in H
   | H : py_in _ _ = false |- _ => apply py_in_var_false in H
@@ -76,6 +98,7 @@ Ltac b2p :=
   | H : py_eqb _ _ = false |- _ => fwd (py_eqb_var_neq H) H
   | H : exists _, _ |- _ => destruct H
   | H : _ /\ _ |- _ => destruct H
+  | H : _ \/ _ |- _ => destruct H
   end.
 
 (* instantiate every hypothesis `forall y : var, _` with every variable in the context *)
@@ -114,6 +137,14 @@ Ltac dec_atoms :=
   end.
 
 Ltac in_rw := repeat (progress rewrite ?in_list_union, ?in_list_diff, ?in_list_intersection in * ).
+
+(* drop what propositional reasoning on `In` cannot use (and what makes tauto slow) *)
+Ltac clean_ctx :=
+  repeat match goal with
+  | H : NoDup _ |- _ => clear H
+  | H : @eq ?T _ _ |- _ => tryif unify T var then fail else clear H
+  end.
+Ltac prop_solve := clean_ctx; inst_vars; in_rw; first [ solve [tauto] | dec_atoms; tauto ].
 
 (* follow a successful monadic computation H : m = inl _.
    k is what to do with the equation of each bound sub-computation. *)
@@ -162,7 +193,7 @@ Ltac unfold_spec :=
     IoContract_can_compose_with, IoContract_can_quotient_by, IoContract_shares_io_with in *.
 
 (* propositional set reasoning *)
-Ltac setsolve := unfold_spec; b2p; inst_vars; in_rw; dec_atoms; tauto.
+Ltac setsolve := unfold_spec; b2p; prop_solve.
 
 (* ================= A. constructor ================= *)
 Lemma init_inv a g i o sp c :
@@ -172,8 +203,7 @@ Lemma init_inv a g i o sp c :
 Proof.
   intros H. unfold IoContract_init in H. rewrite ?TermList_copy_id in H.
   peel_full H; simpl; (split; [|tauto]).
-  all: unfold wf_args, subset, disjoint; b2p; repeat split; try assumption; intros z; intros;
-    inst_vars; in_rw; dec_atoms; tauto.
+  all: unfold wf_args, subset, disjoint; b2p; repeat split; try assumption; intros z; intros; prop_solve.
 Qed.
 
 
@@ -197,8 +227,7 @@ Theorem init_rejects : forall a g i o sp,
 Proof.
   intros a g i o sp Hn. unfold IoContract_init. reject_loop.
   exfalso. apply Hn. clear Hn.
-  unfold wf_args, subset, disjoint; b2p; repeat split; try assumption; intros z; intros;
-    inst_vars; in_rw; dec_atoms; tauto.
+  unfold wf_args, subset, disjoint; b2p; repeat split; try assumption; intros z; intros; prop_solve.
 Qed.
 
 Theorem init_accepts_or_primitive : forall a g i o sp,
@@ -216,7 +245,7 @@ Proof.
       let E := fresh "E" in
       revert Hinit; destruct c eqn:E; intro Hinit;
       [exfalso; clear Hinit; unfold wf_args, subset, disjoint in Hwf; b2p;
-       try contradiction; inst_vars; in_rw; dec_atoms; tauto|]
+       try contradiction; prop_solve|]
   end.
   destruct sp; [|discriminate Hinit].
   destruct (p_simplify g (Some a)) as [r|e'] eqn:Hs; [discriminate Hinit|].
@@ -290,8 +319,9 @@ Ltac use_init :=
 
 (* goal: conjunction of `NoDup l /\ forall x, In x l <-> ...` *)
 Ltac iface_solve :=
-  unfold_spec; b2p; repeat split; try assumption; intros z; intros;
-  inst_vars; in_rw; dec_atoms; tauto.
+  unfold_spec; b2p; repeat split; try assumption; intros;
+  repeat match goal with H : context [TermList_vars _] |- _ => clear H end;
+  prop_solve.
 
 Theorem compose_iface : forall c1 c2 keep sp od c st,
   wf c1 -> wf c2 ->
@@ -332,12 +362,106 @@ Proof.
   unfold_ops. peel_tail H; use_init; split; reflexivity.
 Qed.
 
+(* only the disjointness of inputs and outputs is needed *)
+Theorem rename_iface_disjoint : forall c s u c',
+  disjoint (c_inputvars c) (c_outputvars c) ->
+  IoContract_rename_variable c s u = inl c' ->
+  rename_list_spec s u (c_inputvars c) (c_inputvars c') /\
+  rename_list_spec s u (c_outputvars c) (c_outputvars c').
+Proof.
+  intros c s u c' Hdisj H.
+  unfold_ops. rewrite ?TermList_copy_id in H. peel_full H; use_init.
+  all: unfold_spec; b2p; split.
+  all: first
+    [ apply rename_spec_replace; solve [assumption | prop_solve]
+    | apply rename_spec_remove; solve [assumption | prop_solve]
+    | apply rename_spec_same; solve [tauto | prop_solve] ].
+Qed.
+
+Theorem rename_iface : forall c s u c',
+  wf c ->
+  IoContract_rename_variable c s u = inl c' ->
+  rename_list_spec s u (c_inputvars c) (c_inputvars c') /\
+  rename_list_spec s u (c_outputvars c) (c_outputvars c').
+Proof.
+  intros c s u c' Hwf. apply rename_iface_disjoint. apply Hwf.
+Qed.
+
 Theorem copy_iface : forall c c',
   IoContract_copy c = inl c' ->
   c_inputvars c' = c_inputvars c /\ c_outputvars c' = c_outputvars c /\ c_a c' = c_a c.
 Proof.
   intros c c' H.
   unfold_ops. rewrite ?TermList_copy_id in H. peel_tail H; use_init; repeat split; reflexivity.
+Qed.
+
+(* ================= D. meaningless requests are rejected, whatever the primitives do ================= *)
+(* goal: op ... = inr IncompatibleArgs, with the meaningless request as hypothesis:
+   walk through the leading checks; if all of them passed the request had a meaning *)
+Ltac reject := unfold_ops; reject_loop; exfalso; setsolve.
+
+Theorem compose_rejects_shared_outputs : forall c1 c2 keep sp od,
+  shared_outputs c1 c2 ->
+  IoContract_compose_tactics c1 c2 keep sp od = inr IncompatibleArgs.
+Proof. intros c1 c2 keep sp od Hbad. destruct keep as [keep|]; simpl opt_list in *; reject. Qed.
+
+Theorem compose_rejects_keep : forall c1 c2 keep sp od,
+  keeps_non_output c1 c2 (opt_list keep) ->
+  IoContract_compose_tactics c1 c2 keep sp od = inr IncompatibleArgs.
+Proof. intros c1 c2 keep sp od Hbad. destruct keep as [keep|]; simpl opt_list in *; reject. Qed.
+
+Theorem compose_rejects_feedback : forall c1 c2 keep sp od,
+  feedback_on_constrained_input c1 c2 ->
+  IoContract_compose_tactics c1 c2 keep sp od = inr IncompatibleArgs.
+Proof. intros c1 c2 keep sp od Hbad. destruct keep as [keep|]; simpl opt_list in *; reject. Qed.
+
+Theorem quotient_rejects_output_read : forall c1 c2 add sp od,
+  quotient_output_read_by_divisor c1 c2 ->
+  IoContract_quotient_tactics c1 c2 add sp od = inr IncompatibleArgs.
+Proof.
+  intros c1 c2 add sp od Hbad.
+  destruct add as [add|]; simpl opt_list in *; unfold_ops; rewrite ?nonempty_id; reject.
+Qed.
+
+Theorem quotient_rejects_additional : forall c1 c2 add sp od,
+  bad_additional_inputs c1 c2 (opt_list add) ->
+  IoContract_quotient_tactics c1 c2 add sp od = inr IncompatibleArgs.
+Proof.
+  intros c1 c2 add sp od Hbad.
+  destruct add as [add|]; simpl opt_list in *; unfold_ops; rewrite ?nonempty_id; reject.
+Qed.
+
+Theorem refines_rejects : forall c1 c2,
+  different_interfaces c1 c2 -> IoContract_refines c1 c2 = inr IncompatibleArgs.
+Proof.
+  intros c1 c2 Hbad. unfold IoContract_refines. reject_loop.
+  exfalso. unfold_spec. b2p. tauto.
+Qed.
+
+Theorem rename_rejects_clash : forall c s u,
+  s <> u ->
+  (In s (c_inputvars c) /\ In u (c_outputvars c)) \/
+  (In s (c_outputvars c) /\ ~ In s (c_inputvars c) /\ In u (c_inputvars c)) ->
+  IoContract_rename_variable c s u = inr IncompatibleArgs.
+Proof.
+  intros c s u Hne Hbad.
+  assert (Hq : py_eqb s u = false) by (simpl; apply String.eqb_neq; exact Hne).
+  unfold_ops. cbv beta iota zeta.
+  destruct Hbad as [(Hs & Hu)|(Hs & Hns & Hu)].
+  - apply py_in_var in Hs. apply py_in_var in Hu.
+    rewrite ?Hq, ?Hs, ?Hu. reflexivity.
+  - apply py_in_var in Hs. apply py_in_var in Hu. apply py_in_var_false in Hns.
+    rewrite ?Hq, ?Hs, ?Hns, ?Hu. reflexivity.
+Qed.
+
+(* ================= E. a derived fact ================= *)
+Theorem compose_assumptions_inputs : DomainVars -> forall c1 c2 keep sp od c st,
+  IoContract_compose_tactics c1 c2 keep sp od = inl (c, st) ->
+  forall x, In x (TermList_vars (c_a c)) -> In x (c_inputvars c).
+Proof.
+  intros DV c1 c2 keep sp od c st H.
+  pose proof (compose_wf DV _ _ _ _ _ _ _ H) as Hwf.
+  destruct Hwf as (_ & _ & _ & Hsub & _). exact Hsub.
 Qed.
 
 End Facts.
